@@ -37,7 +37,7 @@ def run(ctx):
     for v in d.violated:
         ctx.violation("design|" + v, "PyAggr violates %s" % v, {"tlc": d.tail[-40:]})
     cov["states"], cov["transitions"] = d.distinct, d.generated
-    cov["design"] = {"module": "PyAggr_MC", "constants": "lo 0..2, span 0..2 or unbounded, 3 values + 1 ill-typed",
+    cov["design"] = {"module": "PyAggr_MC", "constants": "lo 0..2, span 0..2 or unbounded, 3 values + 2 ill-typed (one comparing equal to a well-typed value)",
                      "invariants": ["BoundOK", "TypeOK", "UniqOK", "RangeOK"]}
     work = mkdir(os.path.join(ctx.work, "v"))
     for f in os.listdir(work):
@@ -126,7 +126,7 @@ def run(ctx):
         "distinct_nontrivial": counts["scen"],
         "rule": "every legal declaration (kind x lo 0..2 x hi lo..lo+1 or unbounded x UNIQUE x OPTIONAL) x every "
                 "operation sequence of length %d (BAG/SET: %d) over the index window (one beyond each bound) and "
-                "the value pool (2 well-typed + 1 ill-typed); each scenario distinct by construction" % (L, L + 3),
+                "the value pool (2 well-typed + 2 ill-typed, one of which compares equal to a well-typed value); each scenario distinct by construction" % (L, L + 3),
     })
     return {"level": "model_checking", "coverage": cov, "assumptions": [
         "the runtime has no element removal, so that part of the quantifier is vacuous",
